@@ -65,7 +65,7 @@ theorem lift_resetBuf (X : Ctx) (s : St) :
 /-- (C01) `split_off(at)`, `at <= len` -/
 theorem C01_split_off_partial (X : Ctx) (s : St) (es : List Elem) (at_ : Nat) (h : Abs X s.v es) (hat : at_ ≤ es.length) :
     (∃ o s', Vec.split_off X at_ s = (.ok o, s') ∧ Abs X s'.v (es.take at_) ∧ Abs X o (es.drop at_)) ∨
-    (∃ p s', Vec.split_off X at_ s = (.error p, s') ∧ Panic.benign p = true) := by
+    (∃ p s', Vec.split_off X at_ s = (.error p, s') ∧ Panic.benign p = true ∧ ∃ es', Abs X s'.v es') := by
   have hz := h.elem_pos
   have hL : (hsOf s.v s.sys.allocIdx).L = es.length := h.len_eq
   have h1 : VM.lift X (split_off_pre X.env at_) s = (.ok (.cont ⟨at_, es.length⟩), s) :=
@@ -90,7 +90,7 @@ theorem C01_split_off_partial (X : Ctx) (s : St) (es : List Elem) (at_ : Nat) (h
       · have : VM.onVec ({} : VSt) (VM.lift X (with_capacity X.env (hsOf s.v s.sys.allocIdx).C)) s = (.error p, { s1 with v := s.v }) := by
           unfold VM.onVec; rw [hr]
         rw [this]
-        exact .inr ⟨p, _, rfl, hb⟩
+        exact .inr ⟨p, _, rfl, hb, [], by simpa using h⟩
     · simp only [hc, if_false, VM.bind_run]
       rw [onVec_ok {} _ s _ _ (lift_new_empty X hz s)]
       exact .inl ⟨{}, { ({ s with v := {} } : St) with v := s.v }, rfl, by simpa using h, by simpa using Abs.sentinel_abs X hz⟩
@@ -110,7 +110,7 @@ theorem C01_split_off_partial (X : Ctx) (s : St) (es : List Elem) (at_ : Nat) (h
       generalize Vec.reserve_exact X (hsOf s.v s.sys.allocIdx).C { s with v := {} } = out at hre
       cases hre with
       | same => exact .inl ⟨s.v, { s with v := {} }, rfl, by simpa using Abs.sentinel_abs X hz, by simpa using h⟩
-      | stopped p s' _ hp _ => exact .inr ⟨p, s', rfl, hp⟩
+      | stopped p s' hv' hp _ => exact .inr ⟨p, s', rfl, hp, [], by rw [hv']; exact Abs.sentinel_abs X hz⟩
       | grown s' habs _ _ _ _ => exact .inl ⟨s.v, s', rfl, by simpa using habs, by simpa using h⟩
     · simp only [ha0, if_false, VM.bind_run]
       rw [hC]
@@ -175,7 +175,7 @@ theorem C01_split_off_partial (X : Ctx) (s : St) (es : List Elem) (at_ : Nat) (h
       · have : VM.onVec ({} : VSt) (VM.lift X (with_capacity X.env s.v.cap)) s = (.error p, { s1 with v := s.v }) := by
           unfold VM.onVec; rw [hr]
         rw [this]
-        exact .inr ⟨p, _, rfl, hbn⟩
+        exact .inr ⟨p, _, rfl, hbn, es, by simpa using h⟩
 
 end MV.Props
 
